@@ -17,6 +17,7 @@ pub fn find(id: &str) -> Option<Box<dyn Check>> {
 pub fn debug(args: &[String]) {
     match args.first().map(|s| s.as_str()) {
         Some("gen") => norm::debug_gen(args),
+        Some("fmt") => norm::debug_fmt(args),
         _ => eprintln!("debug what?"),
     }
 }
